@@ -282,6 +282,22 @@ func scenarioC03(c *hlib.RunCtx) *hlib.Violation {
 	case 2:
 		s.Spawn(p.p, "open", func() { enterAdd(); p.f.VerifRotate(); leaveAdd() })
 	}
+	if openMode <= 1 && t.Bool(1, 4) {
+		// rotate1 called again with nothing to rotate (Open called a second time, a
+		// timer that fires early, a reader): it takes the lock, finds the week
+		// still running and leaves - while the adders grow and re-map the file
+		// between its unlock and its deferred look at the current mapping.
+		again := 1 + t.Draw(3)
+		s.Spawn(p.p, "again", func() {
+			for j := 0; j < again; j++ {
+				simrt.Yield("op")
+				enterAdd()
+				p.f.VerifRotate1()
+				leaveAdd()
+				s.Probe("rotate1-with-nothing-to-rotate")
+			}
+		})
+	}
 	if rotation {
 		weeks := 1 + t.Draw(3)
 		jumps := 1 + t.Biased(3, 2, 3) // mostly one rotation, sometimes two or three in a row
